@@ -60,6 +60,9 @@ class Ctx:
         }
         if self.fault:
             d["fault"] = self.fault["type"]
+            if self.fault["type"] == "callback":
+                n = self.fault["name"]
+                d["callback"] = "prepare_item" if n.startswith("prepare_item_") else ("prepare" if n.startswith("prepare_") else n)
         d.update(kw)
         return d
 
